@@ -229,10 +229,6 @@ def run(ctx) -> None:
                         ctx.check("R4", r.equiv(BF.var(fut[0])), f"{fq}: a version from the future keeps its calendar", f"{fq}: the future guard keeps the old calendar under the wrong condition", r.to_dnf(), loc=fn.loc(n.ast))
                     elif v == "old_vinfo._replace(**cur_cinfo._asdict())":
                         ctx.check("R4", r.equiv(~BF.var(fut[0])), f"{fq}: otherwise calendar fields are replaced by the bump calendar", f"{fq}: calendar replaced under the wrong condition", r.to_dnf(), loc=fn.loc(n.ast))
-        gt = prog.function(f"{eng}._is_cal_gt")
-        rets = [n for n in walk_no_nested(gt.node) if isinstance(n, ast.Return)]
-        ok = len(rets) == 1 and unparse(rets[0].value) == "lvals > rvals"
-        ctx.check("R4", ok, f"{eng}._is_cal_gt compares the non-None fields lexicographically with >", f"{eng}._is_cal_gt: comparison changed", unparse(rets[0]) if rets else "", loc=gt.loc())
         none_filter_rule(ctx, eng, "R4")
 
     # ---------------------------------------------------------------- R5
@@ -303,4 +299,24 @@ def none_filter_rule(ctx, eng: str, rule: str) -> None:
         ok = len(nones) == 2 and set(r.atoms) == set(nones) and r.equiv(~BF.var(nones[0]) & ~BF.var(nones[1]))
         ctx.check(rule, ok, f"{eng}._is_cal_gt: `{var}` is compared iff neither side is None", f"{eng}._is_cal_gt: fields are filtered by truthiness (a calendar value of 0, e.g. week 0, is dropped from the future guard)",
                   f"`{var}` collected when {r.to_dnf()}", loc=gt.loc(n.ast), witness={"old": "2021.05.3", "pattern": "YYYY.0W.INC0", "date": "2021-01-02"})
-
+    # the result is `<values of the left argument> > <values of the right argument>`
+    lists = {}
+    for n in apps:
+        lst = unparse(n.ast.value.func.value)
+        src = shapes.inline(gt, n.ast.value.args[0], prog, consts=False)
+        side = None
+        if isinstance(src, ast.Call) and unparse(src.func) == "getattr" and len(src.args) >= 2:
+            side = unparse(src.args[0])
+        lists[lst] = side
+    rets = [n for n in walk_no_nested(gt.node) if isinstance(n, ast.Return)]
+    ok = len(rets) == 1 and isinstance(rets[0].value, ast.Compare) and len(rets[0].value.ops) == 1
+    if ok:
+        cmp_ = rets[0].value
+        l, r = unparse(cmp_.left), unparse(cmp_.comparators[0])
+        if isinstance(cmp_.ops[0], ast.Lt):
+            l, r = r, l
+        elif not isinstance(cmp_.ops[0], ast.Gt):
+            ok = False
+        ok = ok and lists.get(l) == gt.params[0] and lists.get(r) == gt.params[1]
+    ctx.check(rule, ok, f"{eng}._is_cal_gt returns <collected left values> > <collected right values> (lexicographic, strict)",
+              f"{eng}._is_cal_gt: comparison is not `left > right`", unparse(rets[0]) if rets else "", loc=gt.loc())
